@@ -134,3 +134,10 @@ CORPUS += [
     Mut('c18-benign-replace-through-a-helper', 'torchtree/core/parameter_utils.py', '', "        os.replace(file_name + '.new', file_name)\n",
         "        _move(file_name + '.new', file_name)\n\n\ndef _move(src, dst):\n    os.replace(src, dst)\n", mode='text', benign=True),
 ]
+CORPUS += [
+    Mut('c18-in-place-fallback-when-the-directory-looks-read-only', 'torchtree/core/parameter_utils.py', '', "    if not safely:\n        with open(file_name, 'w') as fp:",
+        "    if safely and not os.access(os.path.dirname(file_name), os.W_OK | os.X_OK):\n        safely = False\n    if not safely:\n        with open(file_name, 'w') as fp:", mode='text',
+        expect=[('C18.I2', 'safely=True')]),
+    Mut('c18-benign-directory-permissions-only-reported', 'torchtree/core/parameter_utils.py', '', "    if not safely:\n        with open(file_name, 'w') as fp:",
+        "    if safely and not os.access(os.path.dirname(file_name) or '.', os.W_OK | os.X_OK):\n        print('checkpoint directory is not writable')\n    if not safely:\n        with open(file_name, 'w') as fp:", mode='text', benign=True),
+]
